@@ -1,10 +1,13 @@
 (* C14 — Bridge deposits mint once, conditionally; withdrawals burn what they attest.
-   Property theorems only; proofs live in Proofs/BridgeTokensProofs.v, the model in Model/BridgeTokens.v.
+   Property theorems only; proofs live in Proofs/BridgeTokensProofs.v, the model in Model/BridgeTokens.v;
+   the byte level of the query ids and of the report value: Model/BridgeIds.v, Proofs/BridgeIdsProofs.v
+   (names of those two files and of Model/BridgeEnc.v are written qualified).
 
    Variant flags (DESIGN 2.3): [repaired] = the code after the two proposed fix: patches (and what
    c14_check compares the implementation with), [as_found] = the code as found (F26, F45). *)
 From Coq Require Import ZArith List String.
 From Verif Require Import Base.Harness Model.BridgeTokens Proofs.BridgeTokensProofs.
+From Verif Require Model.BridgeEnc Model.BridgeIds Proofs.BridgeIdsProofs.
 Import ListNotations.
 Open Scope Z_scope.
 
@@ -187,3 +190,107 @@ Theorem C14_check_sound_submit v cf pre pre_o minted maxid id o r :
   check_steps v cf pre pre_o minted maxid (SSubmit true id o :: r) = [] -> o_ok o = false.
 Proof. exact (check_steps_submit v cf pre pre_o minted maxid id o r). Qed.
 Print Assumptions C14_check_sound_submit.
+
+(* ---- the names of the queries, in bytes (Model/BridgeIds.v over the encoders and keccak-256 of Model/BridgeEnc.v) -- *)
+(* GetDepositQueryId hashes go-ethereum's packing of ("TRBBridge", pack(true, id)); these bytes are
+   abi.encode("TRBBridge", abi.encode(true, id)) by the ABI specification's formula, they are the seven words
+   written out in query_data_layout, and they are the canonical deposit query data of Model/BridgeTokens.v
+   (the bytes the blocker theorems speak about) *)
+Theorem C14_deposit_query_data_is id :
+  BridgeIds.deposit_query_data id = BridgeEnc.sol_query_data true id /\
+  BridgeIds.deposit_query_data id = BridgeIds.query_data_layout true id /\
+  bridge_qdata true id = BridgeIds.deposit_query_data id /\
+  bridge_qdata false id = BridgeIds.withdraw_query_data id.
+Proof.
+  exact (conj (BridgeIdsProofs.deposit_query_data_sol id) (conj (BridgeIdsProofs.deposit_query_data_layout id)
+        (conj (BridgeIdsProofs.tokens_bridge_qdata_deposit id) (BridgeIdsProofs.tokens_bridge_qdata_withdraw id)))).
+Qed.
+Print Assumptions C14_deposit_query_data_is.
+
+(* different deposit ids have different query data, for all ids a uint256 can hold (the keeper's are uint64):
+   two deposits share a query id = keccak256(query data) only through a keccak-256 collision between two
+   distinct 224-byte strings *)
+Theorem C14_deposit_query_data_injective id1 id2 :
+  0 <= id1 < 2 ^ 256 -> 0 <= id2 < 2 ^ 256 ->
+  BridgeIds.deposit_query_data id1 = BridgeIds.deposit_query_data id2 -> id1 = id2.
+Proof. exact (BridgeIdsProofs.deposit_query_data_inj id1 id2). Qed.
+Print Assumptions C14_deposit_query_data_injective.
+
+Theorem C14_withdraw_query_data_injective id1 id2 :
+  0 <= id1 < 2 ^ 256 -> 0 <= id2 < 2 ^ 256 ->
+  BridgeIds.withdraw_query_data id1 = BridgeIds.withdraw_query_data id2 -> id1 = id2.
+Proof. exact (BridgeIdsProofs.withdraw_query_data_inj id1 id2). Qed.
+Print Assumptions C14_withdraw_query_data_injective.
+
+(* the length does not depend on the id *)
+Theorem C14_query_data_length id :
+  BridgeEnc.blen (BridgeIds.deposit_query_data id) = 224 /\ BridgeEnc.blen (BridgeIds.withdraw_query_data id) = 224.
+Proof. exact (conj (BridgeIdsProofs.deposit_query_data_length id) (BridgeIdsProofs.withdraw_query_data_length id)). Qed.
+Print Assumptions C14_query_data_length.
+
+(* no deposit shares its query data with a withdrawal, whatever the two ids *)
+Theorem C14_deposit_query_data_not_withdrawal id1 id2 :
+  BridgeIds.deposit_query_data id1 <> BridgeIds.withdraw_query_data id2.
+Proof. exact (BridgeIdsProofs.deposit_withdraw_query_data_differ id1 id2). Qed.
+Print Assumptions C14_deposit_query_data_not_withdrawal.
+
+(* the blocker on the very bytes whose hash is the query id *)
+Theorem C14_blocker_on_query_data id :
+  submit_passes_blocker (BridgeIds.withdraw_query_data id) = false /\
+  submit_passes_blocker (BridgeIds.deposit_query_data id) = true.
+Proof. exact (BridgeIdsProofs.blocker_on_query_data id). Qed.
+Print Assumptions C14_blocker_on_query_data.
+
+(* the executable keccak-256 on these bytes: the ids the real keeper returns for deposit 1 and withdrawal 1 *)
+Theorem C14_query_id_of_1 :
+  BridgeEnc.hex_encode (BridgeIds.deposit_query_id 1) = "abd24ad7de0468ea1a78db7451aa889e4bf61cc9b69500be227cadf0c00e43e9"%string /\
+  BridgeEnc.hex_encode (BridgeIds.withdraw_query_id 1) = "a51d3b4fa2d5d1983c3ab121cb1a8ce691c336ab4eafb858ac5e70386cb3ad9f"%string.
+Proof. exact (conj BridgeIdsProofs.deposit_query_id_1 BridgeIdsProofs.withdraw_query_id_1). Qed.
+Print Assumptions C14_query_id_of_1.
+
+(* ---- the deposit report value, in bytes ----------------------------------------------------------------------- *)
+(* abi.encode(address, string, uint256, uint256) decodes back to the recipient text, the amount and the tip:
+   every address word (clean or dirty), every text, all uint256 amounts and tips *)
+Theorem C14_deposit_value_roundtrip a s amt tip :
+  0 <= amt < 2 ^ 256 -> 0 <= tip < 2 ^ 256 -> BridgeEnc.blen s < 2 ^ 256 ->
+  BridgeIds.decode_deposit_value (BridgeIds.deposit_value a s amt tip) = Some (BridgeIds.DF s amt tip).
+Proof. exact (BridgeIdsProofs.deposit_value_decodes a s amt tip). Qed.
+Print Assumptions C14_deposit_value_roundtrip.
+
+(* through the hex text of the aggregate value and the division by 10^12 (no bound at 2^64 loya) *)
+Theorem C14_deposit_report_roundtrip a s amt tip :
+  BridgeEnc.bytes_ok s = true -> 0 <= amt < 2 ^ 256 -> 0 <= tip < 2 ^ 256 -> BridgeEnc.blen s < 2 ^ 256 ->
+  BridgeIds.decode_deposit_report (BridgeEnc.hex_encode (BridgeIds.deposit_value a s amt tip)) =
+  Some (BridgeIds.DF s (amt / E12) (tip / E12)).
+Proof. exact (BridgeIdsProofs.deposit_report_decodes a s amt tip). Qed.
+Print Assumptions C14_deposit_report_roundtrip.
+
+(* this decoder and the one the claim theorems above are stated with read the same fields out of every byte string *)
+Theorem C14_decoders_agree d :
+  BridgeIds.decode_deposit_value d =
+  match abi_decode4 d with Some (_, s, x, y) => Some (BridgeIds.DF s x y) | None => None end.
+Proof. exact (BridgeIdsProofs.tokens_abi_decode4 d). Qed.
+Print Assumptions C14_decoders_agree.
+
+(* ---- what a silent check of the byte-level drivers establishes -------------------------------------------------- *)
+Theorem C14_check_sound_query_id o :
+  BridgeIds.c14i_check (BridgeIds.IdCase o) = [] ->
+  BridgeEnc.unhex (BridgeIds.io_deposit_qid o) = BridgeIds.deposit_query_id (BridgeIds.io_id o) /\
+  BridgeEnc.unhex (BridgeIds.io_withdraw_qid o) = BridgeIds.withdraw_query_id (BridgeIds.io_id o) /\
+  BridgeEnc.unhex (BridgeIds.io_reg_qdata o) = BridgeIds.deposit_query_data (BridgeIds.io_id o) /\
+  BridgeIds.io_oracle_qid o = BridgeIds.io_deposit_qid o /\
+  BridgeIds.io_deposit_qid o <> BridgeIds.io_withdraw_qid o /\ BridgeIds.io_blocker o = 1.
+Proof. exact (BridgeIdsProofs.check_sound_id o). Qed.
+Print Assumptions C14_check_sound_query_id.
+
+Theorem C14_check_sound_query_ids l :
+  BridgeIds.c14i_check (BridgeIds.IdsCase l) = [] -> NoDup (BridgeIds.ids_of l) /\ NoDup (BridgeIds.qids_of l).
+Proof. exact (BridgeIdsProofs.check_sound_ids l). Qed.
+Print Assumptions C14_check_sound_query_ids.
+
+Theorem C14_check_sound_value value a r x y lib bech_ok rt am tp :
+  BridgeIds.c14i_check (BridgeIds.ValueCase value (Some (a, r, x, y)) lib bech_ok (Some (rt, am, tp))) = [] ->
+  BridgeEnc.unhex value = BridgeIds.deposit_value a (BridgeEnc.unhex r) x y /\ am = x / E12 /\ tp = y / E12 /\
+  BridgeEnc.str_bytes rt = map BridgeIds.lower_byte (BridgeEnc.unhex r).
+Proof. exact (BridgeIdsProofs.check_sound_value value a r x y lib bech_ok rt am tp). Qed.
+Print Assumptions C14_check_sound_value.
